@@ -486,8 +486,99 @@ class Extraction:
                     edits.append((t.start, t.end, "__m if __m == %s" % t.text))
                     self.count("R-strmatch", "%s:%d %s =>" % (S.rel, line_of(S.src, t.start), t.text))
 
-        # token-sequence replacements (R-shim / R-async / R-mono are expressed this way)
         claimed = set()  # token indices already rewritten by an earlier rule (rules apply in file order)
+
+        # R-enumerate: `for (I, X) in E.iter().enumerate() {` becomes `for I in 0..E.len() { let X = &E[I];` — the
+        # definition of slice iteration with a counter (Verus has no model of core::iter::Enumerate and the orphan rule
+        # forbids adding one).  E must be a plain path; the body is untouched.
+        if "R-enumerate" in self.rules and it.kind == "fn" and it.body_open is not None:
+            for (kw, op, cl, in_idx) in self._loops(it):
+                if toks[kw].text != "for" or in_idx is None:
+                    continue
+                tail = [x.text for x in toks[op - 8:op]]
+                if tail != [".", "iter", "(", ")", ".", "enumerate", "(", ")"]:
+                    continue
+                pat = toks[kw + 1:in_idx]
+                if not (len(pat) == 5 and pat[0].text == "(" and pat[2].text == "," and pat[4].text == ")"
+                        and pat[1].kind == "ident" and pat[3].kind == "ident"):
+                    raise ExtractError("R-enumerate: unsupported loop pattern in %s" % it.name)
+                e0, e1 = in_idx + 1, op - 9
+                if not all(x.kind == "ident" or x.text in (".", "::") for x in toks[e0:e1 + 1]):
+                    raise ExtractError("R-enumerate: iterated expression is not a plain path in %s" % it.name)
+                expr = S.src[toks[e0].start:toks[e1].end]
+                I, X = pat[1].text, pat[3].text
+                edits.append((pat[0].start, pat[4].end, I))
+                edits.append((toks[e0].start, toks[op - 1].end, "0..%s.len()" % expr))
+                insert(toks[op].end, " let %s = &%s[%s];" % (X, expr, I))
+                claimed.update(range(kw + 1, in_idx))
+                claimed.update(range(e0, op))
+                self.count("R-enumerate", "%s:%d for (%s, %s) in %s.iter().enumerate()" % (
+                    S.rel, line_of(S.src, toks[kw].start), I, X, expr))
+
+        # R-closure-inline: a local closure `let mut NAME = |p: T, …| { BODY };` that captures a `&mut` (which Verus
+        # closures cannot) is removed and every call `NAME(args)` becomes `{ let p: T = arg; … BODY }` with BODY copied
+        # verbatim from the source (beta reduction of a non-escaping closure without `return`).
+        for cname in entry.get("inline_closures", []):
+            if it.kind != "fn" or it.body_open is None:
+                break
+            found = None
+            for (p0, p1, b0, b1) in self._closures(it):
+                if toks[p0 - 1].text == "=" and toks[p0 - 2].text == cname and toks[b0].text == "{" \
+                        and toks[b1 + 1].text == ";":
+                    ls = p0 - 3
+                    if toks[ls].text == "mut":
+                        ls -= 1
+                    if toks[ls].text != "let":
+                        continue
+                    found = (ls, p0, p1, b0, b1)
+                    break
+            if not found:
+                raise ExtractError("R-closure-inline: closure `%s` not found in %s" % (cname, it.name))
+            ls, p0, p1, b0, b1 = found
+            params, cur = [], []
+            for x in toks[p0 + 1:p1]:
+                if x.text == ",":
+                    params.append(cur)
+                    cur = []
+                else:
+                    cur.append(x)
+            if cur:
+                params.append(cur)
+            ptxt = [S.src[p[0].start:p[-1].end] for p in params]
+            if any(":" not in p for p in ptxt):
+                raise ExtractError("R-closure-inline: untyped parameter of `%s` in %s" % (cname, it.name))
+            body = S.src[toks[b0].end:toks[b1].start]
+            if any(x.kind == "ident" and x.text == "return" for x in toks[b0:b1]):
+                raise ExtractError("R-closure-inline: `return` inside closure `%s`" % cname)
+            edits.append((toks[ls].start, toks[b1 + 1].end, _blank(S.src[toks[ls].start:toks[b1 + 1].end])))
+            claimed.update(range(ls, b1 + 2))
+            ncalls = 0
+            for i in range(b1 + 2, it.hi):
+                if toks[i].kind == "ident" and toks[i].text == cname and toks[i + 1].text == "(" and toks[i - 1].text != ".":
+                    c = S.br[i + 1]
+                    args, cur, k = [], None, i + 2
+                    a0 = k
+                    while k < c:
+                        if toks[k].text in "([{":
+                            k = S.br[k]
+                        elif toks[k].text == ",":
+                            args.append(S.src[toks[a0].start:toks[k - 1].end])
+                            a0 = k + 1
+                        k += 1
+                    if a0 < c:
+                        args.append(S.src[toks[a0].start:toks[c - 1].end])
+                    if len(args) != len(ptxt):
+                        raise ExtractError("R-closure-inline: arity mismatch calling `%s` in %s" % (cname, it.name))
+                    lets = " ".join("let %s = %s;" % (p, a) for p, a in zip(ptxt, args))
+                    edits.append((toks[i].start, toks[c].end, "{ %s %s }" % (lets, " ".join(body.split()))))
+                    claimed.update(range(i, c + 1))
+                    ncalls += 1
+                elif toks[i].kind == "ident" and toks[i].text == cname:
+                    raise ExtractError("R-closure-inline: closure `%s` escapes in %s" % (cname, it.name))
+            self.count("R-closure-inline", "%s:%d closure `%s` inlined at %d call sites" % (
+                S.rel, line_of(S.src, toks[ls].start), cname, ncalls))
+
+        # token-sequence replacements (R-shim / R-async / R-mono are expressed this way)
         for rep in self.spec.get("replace", []):
             if "only" in rep and it.name not in rep["only"]:
                 continue
@@ -606,40 +697,40 @@ class Extraction:
                         j += 1
                     if toks[i + 1].text not in ("std", "core", "alloc"):
                         continue
-                    path, stack, alias = [], [], None
-                    k = i + 1
-
-                    def leaf():
-                        if len(path) > 1 and path[-1] not in ("self", "*"):
-                            leaves.append(("::".join(path), alias or path[-1]))
-                    while k < j:
-                        t = toks[k]
-                        if t.kind == "ident":
-                            if t.text == "as":
-                                alias = toks[k + 1].text
-                                k += 2
-                                continue
-                            path.append(t.text)
-                        elif t.text == "*":
-                            path.append("*")
-                        elif t.text == "{":
-                            stack.append(len(path))
-                        elif t.text in ",}":
-                            if not stack or len(path) > stack[-1]:
-                                leaf()
-                            alias = None
-                            if stack:
-                                path = path[:stack[-1]]
-                            if t.text == "}":
-                                stack.pop()
-                                path = path + ["}"]  # marker: group already emitted
-                        k += 1
-                    if path and path[-1] != "}":
-                        leaf()
+                    def tree(k, prefix):
+                        """parse one use-tree starting at token k; returns next k"""
+                        path = list(prefix)
+                        while k < j:
+                            t = toks[k]
+                            if t.kind == "ident" and t.text == "as":
+                                leaves.append(("::".join(path), toks[k + 1].text))
+                                return k + 2
+                            if t.kind == "ident":
+                                path.append(t.text)
+                                k += 1
+                            elif t.text == "::":
+                                k += 1
+                            elif t.text == ":":
+                                k += 1
+                            elif t.text == "*":
+                                return k + 1
+                            elif t.text == "{":
+                                k += 1
+                                while toks[k].text != "}":
+                                    k = tree(k, path)
+                                    if toks[k].text == ",":
+                                        k += 1
+                                return k + 1
+                            else:
+                                break
+                        if len(path) > 1 and path[-1] != "self":
+                            leaves.append(("::".join(path), path[-1]))
+                        return k
+                    tree(i + 1, [])
         text = "".join(c[0] for c in self.chunks)
         out, seen = [], set()
         for pth, name in leaves:
-            if name in seen:
+            if name in seen or pth.startswith(("std::fmt", "core::fmt")):
                 continue
             seen.add(name)
             if re.search(r"\b(?:struct|enum|type|fn|trait|mod|const|union)\s+%s\b" % re.escape(name), text):
@@ -788,6 +879,20 @@ class Extraction:
                             e = S.br[e]
                         e += 1
                     insert(toks[e].end, "\n" + text)
+            elif anchor == "close":
+                # `@close "tokens … {"`: just before the brace that closes the block opened by the last token
+                nth = int(kv.get("nth", 0))
+                a, b = self._find_stmt(it, pos_args[0], nth)
+                if toks[b].text != "{" or b not in S.br:
+                    raise ExtractError("@close anchor `%s` does not end with an opening brace" % pos_args[0])
+                insert(toks[S.br[b]].start, "\n" + text)
+            elif anchor == "open":
+                # `@open "tokens … {"`: right after that opening brace
+                nth = int(kv.get("nth", 0))
+                a, b = self._find_stmt(it, pos_args[0], nth)
+                if toks[b].text != "{":
+                    raise ExtractError("@open anchor `%s` does not end with an opening brace" % pos_args[0])
+                insert(toks[b].end, "\n" + text)
             elif anchor == "closure":
                 # `@closure k params="a: A" ret="r: R"` + requires/ensures text: annotate the k-th closure of the fn
                 k = int(pos_args[0])
@@ -873,6 +978,8 @@ class Extraction:
                        line=line_of(S.src, S.toks[it.lo].start),
                        sha256=hashlib.sha256(raw.encode()).hexdigest()[:16],
                        contract=bool(entry.get("splice")))
+            if entry.get("emit_name"):
+                rec["emit_name"] = entry["emit_name"]
             self.functions.append(rec)
             cl = [("\n// from %s:%d  [%s]\n" % (entry["file"], rec["line"], entry["select"]), None, None)]
             if it.impl_header:
